@@ -409,6 +409,31 @@ where
     }
 }
 
+#[cfg(nuts_rs_verif)]
+impl<M, R, A, T> MclmcChain<M, R, A, T>
+where
+    M: Math,
+    R: rand::Rng,
+    T: Transformation<M>,
+    A: AdaptStrategy<M, Hamiltonian = TransformedHamiltonian<M, T>>,
+{
+    pub fn verif_strategy(&self) -> &A {
+        &self.adapt
+    }
+
+    pub fn verif_hamiltonian(&self) -> &TransformedHamiltonian<M, T> {
+        &self.hamiltonian
+    }
+
+    pub fn verif_state(&self) -> &State<M, TransformedPoint<M>> {
+        &self.state
+    }
+
+    pub fn verif_math(&self) -> std::cell::RefMut<'_, M> {
+        self.math.borrow_mut()
+    }
+}
+
 // ── SamplerStats ──────────────────────────────────────────────────────────────
 
 impl<M, R, A, T> SamplerStats<M> for MclmcChain<M, R, A, T>
